@@ -9,7 +9,7 @@
    class_of c v t true s0 s1 d   outcome of restore_from_checkpoint on folder d: Error / Exactly_old / Exactly_new / Hybrid
                        (t : what the csv parser makes of a cut last line - the theorems hold for every t) *)
 From Coq Require Import List Arith Bool.
-From BlackIt Require Import Model.Crash Proofs.CrashP.
+From BlackIt Require Import Model.Crash Proofs.CrashP Model.CrashSeq Proofs.CrashSeqP.
 Import ListNotations.
 
 (* ---------------- the order of the tree before the repair (json first, nothing cross-checked): refuted, and the
@@ -160,4 +160,136 @@ Example C06_legacy_classes_on_tokens :
   map (fun k => class_of (tcomponents 0) Legacy TGarbled true tok0 tok1 (crash Legacy k)) (seq 0 17)
   = [Exactly_old; Error; Hybrid; Hybrid; Error; Hybrid; Hybrid; Error; Hybrid; Hybrid; Error; Hybrid; Hybrid; Hybrid;
      Hybrid; Exactly_new; Exactly_new].
+Proof. vm_compute. reflexivity. Qed.
+
+(* ================= generator sweep (round 4): Model/CrashSeq.v =================
+   class2_of c v t oldfmt true s0 s1 d   as class_of, the json of a complete save recording the digests of the files of
+                       that checkpoint; oldfmt = the previous checkpoint was written by a version that recorded none
+   mode_of_c c s0 s1 d how a save of s1 started on folder d writes series_samp.h5: appended in place (rows on disk a
+                       prefix), created (no file), re-created (rows not a prefix), None = file unreadable, the save raises
+   seq_folder_c c v s0 s1 d l   folder after a sequence l of saves of s1, each stopped at an operation / inside a file *)
+
+(* the extension says what the first model says, where both apply *)
+Theorem C06_extension_agrees_prev : forall c v t (s0 s1 : checkpoint c) d,
+  appended c s0 s1 = sh s1 -> class2_of c v t false true s0 s1 d = class_of c v t true s0 s1 d.
+Proof. exact b_class2_agrees_prev. Qed.
+Print Assumptions C06_extension_agrees_prev.
+
+Theorem C06_extension_agrees_ops : forall v k,
+  run_ops2 (firstn k (save_ops_m v (Some MAppend))) folder_old = crash v k
+  /\ run_ops2 (firstn k (save_ops_m v (Some MFresh))) folder_absent = crash_fresh v k.
+Proof. intros v k. split; [apply run_ops2_crash | apply run_ops2_crash_fresh]. Qed.
+Print Assumptions C06_extension_agrees_ops.
+
+(* the property for the repaired order, in its strongest form: NO folder at all - whatever mixture of old, new, empty,
+   cut, resized or re-created files any sequence of crashes left - is restored as a hybrid *)
+Theorem C06_any_folder_never_hybrid : forall c, decides_eq c -> digest_injective c ->
+  forall t (s0 s1 : checkpoint c) (d : folder),
+  In (class2_of c Repaired t false true s0 s1 d) [Error; Exactly_old; Exactly_new].
+Proof. exact b_any_folder_never_hybrid. Qed.
+Print Assumptions C06_any_folder_never_hybrid.
+
+Theorem C06_any_folder_never_hybrid_fresh : forall c, decides_eq c -> digest_injective c ->
+  forall t (s0 s1 : checkpoint c) (d : folder), f_json d <> Old ->
+  In (class2_of c Repaired t false false s0 s1 d) [Error; Exactly_new].
+Proof. exact b_any_folder_never_hybrid_fresh. Qed.
+Print Assumptions C06_any_folder_never_hybrid_fresh.
+
+(* any sequence of interrupted saves (each choosing its way of writing the series file from what the previous ones left)
+   on top of checkpoint s0: an error or exactly s0 *)
+Theorem C06_fault_sequence_error_or_previous : forall c, decides_eq c -> digest_injective c ->
+  forall t (s0 s1 : checkpoint c) (l : list stop), all_before_commit c s0 s1 folder_old l = true ->
+  class2_of c Repaired t false true s0 s1 (seq_folder_c c Repaired s0 s1 folder_old l) = Error
+  \/ class2_of c Repaired t false true s0 s1 (seq_folder_c c Repaired s0 s1 folder_old l) = Exactly_old.
+Proof. exact b_seq_error_or_previous. Qed.
+Print Assumptions C06_fault_sequence_error_or_previous.
+
+(* a save that completes, started on ANY folder whose series file can be opened, commits exactly s1 *)
+Theorem C06_save_after_any_crash_commits_new : forall c, decides_eq c -> forall t (s0 s1 : checkpoint c) d m,
+  mode_of_c c s0 s1 d = Some m -> s0 <> s1 ->
+  class2_of c Repaired t false true s0 s1 (run_ops2 (save_ops_m Repaired (Some m)) d) = Exactly_new.
+Proof. exact b_complete_from_any. Qed.
+Print Assumptions C06_save_after_any_crash_commits_new.
+
+(* the rows on disk are not the first rows of the series being saved: the series file is re-created *)
+Theorem C06_rewrite_mode : forall c (s0 s1 : checkpoint c), not_prefix c s0 s1 ->
+  mode_of_c c s0 s1 folder_old = Some MRewrite.
+Proof. exact b_rewrite_mode. Qed.
+Print Assumptions C06_rewrite_mode.
+
+Theorem C06_rewrite_no_hybrid_before_commit : forall c, decides_eq c -> digest_injective c ->
+  forall t (s0 s1 : checkpoint c) k, k < length (save_ops_m Repaired (Some MRewrite)) ->
+  let d := run_ops2 (firstn k (save_ops_m Repaired (Some MRewrite))) folder_old in
+  class2_of c Repaired t false true s0 s1 d = Error \/ class2_of c Repaired t false true s0 s1 d = Exactly_old.
+Proof. exact b_rewrite_before_commit. Qed.
+Print Assumptions C06_rewrite_no_hybrid_before_commit.
+
+Theorem C06_rewrite_no_hybrid_cut : forall c, decides_eq c -> digest_injective c ->
+  forall t (s0 s1 : checkpoint c) f e ct, f <> FJson ->
+  let d := step_folder Repaired (Some MRewrite) folder_old (SCut f e ct) in
+  class2_of c Repaired t false true s0 s1 d = Error \/ class2_of c Repaired t false true s0 s1 d = Exactly_old.
+Proof. exact b_rewrite_cut. Qed.
+Print Assumptions C06_rewrite_no_hybrid_cut.
+
+Theorem C06_rewrite_complete : forall c, decides_eq c -> forall t (s0 s1 : checkpoint c) k,
+  not_prefix c s0 s1 -> s0 <> s1 -> length (save_ops_m Repaired (Some MRewrite)) <= k ->
+  class2_of c Repaired t false true s0 s1 (run_ops2 (firstn k (save_ops_m Repaired (Some MRewrite))) folder_old)
+  = Exactly_new.
+Proof. exact b_rewrite_complete. Qed.
+Print Assumptions C06_rewrite_complete.
+
+(* a previous checkpoint WITHOUT digests (written by an older version; loaded without any check): the property is
+   refuted for the tree as it is - for every generic pair, every crash point from "new rows in the series file" to the
+   commit is a silent hybrid (old counters, new records). With digests in the previous json the same points are an error
+   (C06_repaired_no_hybrid_before_commit): that is the partial statement that holds. *)
+Theorem C06_digestless_previous_refuted : forall c, decides_eq c -> forall (s0 s1 : checkpoint c), generic_pair c s0 s1 ->
+  exists k, k < nops Repaired /\ class2_of c Repaired TGarbled true true s0 s1 (crash Repaired k) = Hybrid.
+Proof. exact b_digestless_refuted. Qed.
+Print Assumptions C06_digestless_previous_refuted.
+
+Theorem C06_digestless_previous_hybrid_points : forall c, decides_eq c -> forall t (s0 s1 : checkpoint c) k,
+  generic_pair c s0 s1 -> 12 <= k -> k < 21 -> class2_of c Repaired t true true s0 s1 (crash Repaired k) = Hybrid.
+Proof. exact b_digestless_hybrid. Qed.
+Print Assumptions C06_digestless_previous_hybrid_points.
+
+(* SQLite: any number of failed saves keep the previous checkpoint, and the save that finally completes stores s1 *)
+Theorem C06_sqlite_repeated_failures_keep_previous : forall St (s0 s1 : St) (l : list (nat * bool)),
+  Forall (fun f => ran (fst f) (snd f) <= 4) l ->
+  sql_load St (failed_saves St Repaired s1 l (db_of St (Some s0))) = ROk s0.
+Proof. exact sql_failures_keep_previous. Qed.
+Print Assumptions C06_sqlite_repeated_failures_keep_previous.
+
+Theorem C06_sqlite_retry_after_failures_complete : forall St (prev : option St) (s1 : St) (l : list (nat * bool)),
+  Forall (fun f => ran (fst f) (snd f) <= 4) l ->
+  sql_load St (complete_save St Repaired s1 (failed_saves St Repaired s1 l (db_of St prev))) = ROk s1.
+Proof. exact sql_retry_after_failures. Qed.
+Print Assumptions C06_sqlite_retry_after_failures_complete.
+
+(* non-vacuity of the new statements, on tokens: tokr0 / tokr1 = checkpoints of two different runs (rows not a prefix) *)
+Definition tokr0 : tstate := mkState _ _ _ _ _ _ 0 0 0 0 [1; 2] [1; 2].
+Definition tokr1 : tstate := mkState _ _ _ _ _ _ 1 1 0 0 [3; 4; 5] [3; 4; 5].
+Example C06_rewrite_witness : not_prefix (tcomponents 0) tokr0 tokr1 /\ tokr0 <> tokr1.
+Proof. split; [reflexivity | discriminate]. Qed.
+Example C06_rewrite_classes_on_tokens :
+  map (fun k => class2_of (tcomponents 0) Repaired TGarbled false true tokr0 tokr1
+                  (run_ops2 (firstn k (save_ops_m Repaired (Some MRewrite))) folder_old)) (seq 0 23)
+  = [Exactly_old; Error; Error; Error; Error; Error; Error; Error; Error; Error; Error; Error; Error; Error; Error; Error;
+     Error; Error; Error; Error; Error; Error; Exactly_new].
+Proof. vm_compute. reflexivity. Qed.
+(* a crash after the resize, then a retry: the resized file is not a prefix, the retry re-creates it and commits *)
+Example C06_retry_after_resize_on_tokens :
+  modes_of_steps Repaired 0 tok0 tok1 folder_old [SEvent 7; SComplete] = [Some MAppend; Some MRewrite]
+  /\ class2_of (tcomponents 0) Repaired TGarbled false true tok0 tok1
+       (seq_folder_c (tcomponents 0) Repaired tok0 tok1 folder_old [SEvent 7; SComplete]) = Exactly_new.
+Proof. vm_compute. split; reflexivity. Qed.
+(* a crash between h5py.File(mode="w") and create_dataset leaves a series file no later save can open *)
+Example C06_series_file_without_dataset_on_tokens :
+  modes_of_steps Repaired 0 tokr0 tokr1 folder_old [SEvent 7; SComplete; SComplete] = [Some MRewrite; None; None]
+  /\ class2_of (tcomponents 0) Repaired TGarbled false true tokr0 tokr1
+       (seq_folder_c (tcomponents 0) Repaired tokr0 tokr1 folder_old [SEvent 7; SComplete; SComplete]) = Error.
+Proof. vm_compute. split; reflexivity. Qed.
+Example C06_digestless_classes_on_tokens :
+  map (fun k => class2_of (tcomponents 0) Repaired TGarbled true true tok0 tok1 (crash Repaired k)) (seq 0 22)
+  = [Exactly_old; Error; Hybrid; Hybrid; Error; Hybrid; Hybrid; Error; Hybrid; Hybrid; Hybrid; Hybrid; Hybrid; Hybrid; Hybrid;
+     Hybrid; Hybrid; Hybrid; Hybrid; Hybrid; Hybrid; Exactly_new].
 Proof. vm_compute. reflexivity. Qed.
